@@ -294,4 +294,4 @@ def gen_illformed(tier, R):
         return f"(call {s(R.choice(names))} {rnd(d-1)} {R.choice(leaves)})"
     for _ in range(3000 if tier == 'quick' else 100000):
         out.append(rnd(R.randint(3, 40 if tier == 'quick' else 60)))
-    return [f"(tot _ {envs} {e})" for e in out]
+    return [f"(tot _ {envs} {e})" for e in out] + [f"(wide _ {n})" for n in ((10, 1000, 100000) if tier == 'quick' else (10, 1000, 20000, 100000, 400000))]
